@@ -77,6 +77,8 @@ mut('double_output_slots', 'process.c', 'total_out_slots = 16u * num_worker;', '
 mut('parse_token_lost_on_more', 'expand.c', '''    VERIF_REACH("x.parse.more");
     parse_token = true;''', '''    VERIF_REACH("x.parse.more");''', 'C11 C09 C01', 'parser token lost when the parser runs out of input')
 mut('order_q_one_too_small', 'expand.c', 'deque_init(order_q, work_units + out_slots);', 'deque_init(order_q, work_units + out_slots - 2);', 'C11 C08', 'queue capacity off by two')
+mut('emit_threshold_off_by_one', 'expand.c', '          (out_slots > EMIT_THRESH\n', '          (out_slots >= EMIT_THRESH\n', 'C11 C08', 'one more speculative block than unord_q can hold (seeded C08-2/C11-2): needs a stalled in-order worker and >= 17W-2 tiny blocks')
+mut('encoder_scratch_table_shared', 'encode.c', '    uint64_t len_pack[MAX_ALPHA_SIZE + 1];\n', '    static uint64_t len_pack[MAX_ALPHA_SIZE + 1];\n', 'C03 C12', 'scratch table shared by all workers in lock-free code (seeded C03-2): only interleavings inside unsynchronised code show it')
 mut('ftab_not_cleared', 'decode.c', '    memset(ds->ftab, 0, sizeof(ds->ftab));', '    ;', 'C08', 'decoder frequency table used uninitialised (heap): decisions on uninitialised memory')
 mut('cmap_not_cleared', 'encode.c', '  memset(s->cmap, 0, 256u * sizeof(bool));', '  ;', 'C08', 'encoder symbol map used uninitialised')
 mut('retrieve_fix_reverted', 'expand.c', 'if (rb->curr_pos.offset < head_offs) {\n      /* The master', 'if (0 && rb->curr_pos.offset < head_offs) {\n      /* The master', 'C10 C09', 'reverts fix 8005bac')
